@@ -73,6 +73,7 @@ RowOf(n) == LET w == TabSeq[n] IN
 (* registered after readiness, whether the migration is held at the datastore gate, injected fault.   *)
 LifeRows == {[listeners |-> k, late |-> l, hold |-> h, fault |-> f] :
                k \in 0..3, l \in 0..1, h \in BOOLEAN, f \in {"none","queryErr","badRecord"}}
+            \cup {[listeners |-> k, late |-> l, hold |-> TRUE, fault |-> "ctxCancel"] : k \in 0..3, l \in 0..1}   \* the start context ends while the migration is in flight
 
 (* error class a refused operation reports (conformance only; the property is "refused, untouched").  *)
 (* channels.GetByID swallows the gate's error into ErrNotFound; everything else passes it through.    *)
